@@ -1,5 +1,796 @@
-//! C30 harness (stub: not implemented yet).
+//! C30 — unified diff text encoding. Runs the REAL `Encode`/`Decode` impls of
+//! `radicle_cli::git::unified_diff`.
+//!
+//! Case forms (bytes in hex, `-` = empty):
+//!   hdr <text>    `HunkHeader::from_bytes`            -> ok:<oldNo>,<oldSize>,<newNo>,<newSize>,<text>,<re-encoded> | err
+//!   mod <text>    `Modification::from_bytes`          -> ok:<a|d|c><line>,<re-encoded> | err
+//!   hunk <text>   `Hunk::<Modification>::from_bytes`  -> ok:<hunk>,<re-encoded> | err | panic
+//!   rt <header> <o1>-<o2> <n1>-<n2> <lines>           a hunk value, encoded with `Hunk::encode`, then decoded
+//!                 with the in-file `Hunk::decode`     -> <encoded> <as for `hunk`>
+//!                 (<lines> = `-` or `a<no>:<hex>` | `d<no>:<hex>` | `c<old>.<new>:<hex>` joined by `,`)
+//!   diff <tree> <tree>   git computes the diff between the two trees (libgit2 `diff_tree_to_tree` + rename/copy
+//!                 detection as radicle-surf does), real `Diff::encode`, real `Diff::decode` (libgit2's patch
+//!                 parser), compare files / change kinds / hunks -> ok | mismatch | decode-err | encode-err
+//!                 (<tree> = `-` or `<path>:<f|x>:<hex content>` joined by `,`)
+//!   <hunk> = <header>|<lines>|<o1>-<o2>|<n1>-<n2>
+//!
+//! The model covers hunk header / line / hunk level; for `diff` cases the driver only answers `ok` (the
+//! whole-diff decoder is libgit2, not modelled). Every hunk git produces in a `diff` case is also recorded as
+//! a derived `rt` case, so that the model's bytes are compared with the real bytes on real hunks.
+
+use std::path::PathBuf;
+
+use radicle::git::raw as git2;
+use radicle_cli::git::unified_diff::{Decode, Encode, HunkHeader};
+use radicle_surf::diff::{Addition, Deletion, Diff, DiffContent, FileDiff, Hunk, Line, Modification};
+use verif_common::*;
+
+fn show_mod(m: &Modification) -> String {
+    match m {
+        Modification::Addition(Addition { line, line_no }) => format!("a{line_no}:{}", hex(line.as_bytes())),
+        Modification::Deletion(Deletion { line, line_no }) => format!("d{line_no}:{}", hex(line.as_bytes())),
+        Modification::Context { line, line_no_old, line_no_new } => {
+            format!("c{line_no_old}.{line_no_new}:{}", hex(line.as_bytes()))
+        }
+    }
+}
+
+fn show_lines(ls: &[Modification]) -> String {
+    if ls.is_empty() {
+        "-".into()
+    } else {
+        ls.iter().map(show_mod).collect::<Vec<_>>().join(",")
+    }
+}
+
+fn show_hunk(h: &Hunk<Modification>) -> String {
+    format!(
+        "{}|{}|{}-{}|{}-{}",
+        hex(h.header.as_bytes()),
+        show_lines(&h.lines),
+        h.old.start,
+        h.old.end,
+        h.new.start,
+        h.new.end
+    )
+}
+
+fn parse_lines(s: &str) -> Option<Vec<Modification>> {
+    if s == "-" {
+        return Some(vec![]);
+    }
+    s.split(',')
+        .map(|t| {
+            let (head, body) = t.split_once(':')?;
+            let bytes = unhex(body)?;
+            let kind = head.get(..1)?;
+            let nums = head.get(1..)?;
+            match kind {
+                "a" => Some(Modification::addition(bytes, nums.parse().ok()?)),
+                "d" => Some(Modification::deletion(bytes, nums.parse().ok()?)),
+                "c" => {
+                    let (o, n) = nums.split_once('.')?;
+                    Some(Modification::context(bytes, o.parse().ok()?, n.parse().ok()?))
+                }
+                _ => None,
+            }
+        })
+        .collect()
+}
+
+fn parse_range(s: &str) -> Option<std::ops::Range<u32>> {
+    let (a, b) = s.split_once('-')?;
+    Some(a.parse().ok()?..b.parse().ok()?)
+}
+
+/// Rust's `str::trim_end` on bytes that are valid UTF-8 (lossy otherwise, as the encoder does).
+fn trim_end(b: &[u8]) -> String {
+    String::from_utf8_lossy(b).trim_end().to_owned()
+}
+
+struct Repo {
+    _tmp: tempfile::TempDir,
+    repo: git2::Repository,
+}
+
+thread_local! {
+    static REPO: Repo = {
+        let tmp = tempfile::tempdir().expect("tempdir");
+        let repo = git2::Repository::init_bare(tmp.path()).expect("init");
+        Repo { _tmp: tmp, repo }
+    };
+}
+
+type TreeSpec = Vec<(String, bool, Vec<u8>)>;
+
+fn parse_tree(s: &str) -> Option<TreeSpec> {
+    if s == "-" {
+        return Some(vec![]);
+    }
+    s.split(',')
+        .map(|e| {
+            let mut p = e.split(':');
+            let (name, mode, content) = (p.next()?, p.next()?, p.next()?);
+            if p.next().is_some() || name.is_empty() {
+                return None;
+            }
+            let exec = match mode {
+                "f" => false,
+                "x" => true,
+                _ => return None,
+            };
+            Some((name.to_string(), exec, unhex(content)?))
+        })
+        .collect()
+}
+
+fn build_tree<'r>(repo: &'r git2::Repository, spec: &TreeSpec) -> Result<git2::Tree<'r>, git2::Error> {
+    let empty = repo.find_tree(repo.treebuilder(None)?.write()?)?;
+    let mut b = git2::build::TreeUpdateBuilder::new();
+    for (name, exec, content) in spec {
+        let oid = repo.blob(content)?;
+        b.upsert(name.as_str(), oid, if *exec { git2::FileMode::BlobExecutable } else { git2::FileMode::Blob });
+    }
+    let oid = b.create_updated(repo, &empty)?;
+    repo.find_tree(oid)
+}
+
+/// Files, change kinds and hunks (headers and lines): what the property compares. Object ids are
+/// abbreviated by the text form and therefore not compared.
+type Summary = Vec<(String, Vec<PathBuf>, Vec<(Vec<u8>, Vec<Modification>)>)>;
+
+fn summary(diff: &Diff) -> Summary {
+    diff.files()
+        .map(|f| {
+            let (kind, paths, content) = match f {
+                FileDiff::Added(f) => ("added", vec![f.path.clone()], &f.diff),
+                FileDiff::Deleted(f) => ("deleted", vec![f.path.clone()], &f.diff),
+                FileDiff::Modified(f) => ("modified", vec![f.path.clone()], &f.diff),
+                FileDiff::Moved(f) => ("moved", vec![f.old_path.clone(), f.new_path.clone()], &f.diff),
+                FileDiff::Copied(f) => ("copied", vec![f.old_path.clone(), f.new_path.clone()], &f.diff),
+            };
+            let hunks = match content {
+                DiffContent::Plain { hunks, .. } => {
+                    hunks.iter().map(|h| (h.header.as_bytes().to_vec(), h.lines.clone())).collect()
+                }
+                _ => vec![],
+            };
+            (kind.to_owned(), paths, hunks)
+        })
+        .collect()
+}
+
+/// Result of a `diff` case, plus the real hunks git produced (for derived `rt` cases).
+fn run_diff(old: &TreeSpec, new: &TreeSpec) -> (Outcome, Vec<Hunk<Modification>>) {
+    REPO.with(|r| {
+        let repo = &r.repo;
+        let mk = || -> Result<Diff, String> {
+            let old = build_tree(repo, old).map_err(|e| e.to_string())?;
+            let new = build_tree(repo, new).map_err(|e| e.to_string())?;
+            let mut raw = repo.diff_tree_to_tree(Some(&old), Some(&new), None).map_err(|e| e.to_string())?;
+            // as radicle_surf::Repository::diff does
+            let mut find = git2::DiffFindOptions::new();
+            find.renames(true);
+            find.copies(true);
+            raw.find_similar(Some(&mut find)).map_err(|e| e.to_string())?;
+            Diff::try_from(raw).map_err(|e| e.to_string())
+        };
+        let diff = match mk() {
+            Ok(d) => d,
+            Err(_) => return (Outcome::new("bad-case").trivial(), vec![]),
+        };
+        let mut tags = vec![];
+        let mut hunks = vec![];
+        let mut excluded = None;
+        for f in diff.files() {
+            let (kind, content) = match f {
+                FileDiff::Added(f) => ("added", &f.diff),
+                FileDiff::Deleted(f) => ("deleted", &f.diff),
+                FileDiff::Modified(f) => ("modified", &f.diff),
+                FileDiff::Moved(f) => ("moved", &f.diff),
+                FileDiff::Copied(f) => {
+                    excluded = Some("excluded-copied-file");
+                    ("copied", &f.diff)
+                }
+            };
+            tags.push(format!("file-{kind}"));
+            match content {
+                DiffContent::Binary => excluded = Some("excluded-binary-file"),
+                DiffContent::Empty => tags.push("content-empty".into()),
+                DiffContent::Plain { hunks: hs, eof, .. } => {
+                    if !matches!(eof, radicle_surf::diff::EofNewLine::NoneMissing) {
+                        excluded = Some("excluded-no-newline-at-eof");
+                    }
+                    if kind == "moved" && hs.iter().count() > 0 {
+                        tags.push("moved-with-changes".into());
+                    }
+                    tags.push(format!("hunks-{}", hs.iter().count().min(3)));
+                    for h in hs.iter() {
+                        if h.lines.iter().any(|l| {
+                            let b = match l {
+                                Modification::Addition(a) => a.line.as_bytes(),
+                                Modification::Deletion(d) => d.line.as_bytes(),
+                                Modification::Context { line, .. } => line.as_bytes(),
+                            };
+                            b.len() >= 2 && (b[b.len() - 2] as char).is_ascii_whitespace()
+                        }) {
+                            tags.push("line-with-trailing-whitespace".into());
+                        }
+                        hunks.push(h.clone());
+                    }
+                }
+            }
+        }
+        if diff.files().count() == 0 {
+            tags.push("no-changes".into());
+        }
+        tags.sort();
+        tags.dedup();
+        let finish = |mut o: Outcome| {
+            o.tags.extend(tags.clone());
+            o
+        };
+        if let Some(why) = excluded {
+            // Outside the property's hypothesis (the encoder marks these unimplemented).
+            return (finish(Outcome::new("ok").tag(why).trivial()), vec![]);
+        }
+        let text = match catch(|| diff.to_unified_string()) {
+            Ok(Ok(t)) => t,
+            Ok(Err(e)) => {
+                return (
+                    finish(Outcome::new("encode-err").violation("diff-encode-error", format!("encoding failed: {e}"))),
+                    hunks,
+                )
+            }
+            Err(msg) => {
+                return (
+                    finish(Outcome::new("encode-err").violation("diff-encode-panic", format!("encoding panicked: {msg}"))),
+                    hunks,
+                )
+            }
+        };
+        let decoded = match catch(|| Diff::parse(&text)) {
+            Ok(Ok(d)) => d,
+            Ok(Err(e)) => {
+                return (
+                    finish(
+                        Outcome::new("decode-err")
+                            .violation("diff-decode-error", format!("decoding the encoded diff failed: {e}; text={text:?}")),
+                    ),
+                    hunks,
+                )
+            }
+            Err(msg) => {
+                return (
+                    finish(Outcome::new("decode-err").violation("diff-decode-panic", format!("decoding panicked: {msg}"))),
+                    hunks,
+                )
+            }
+        };
+        let (a, b) = (summary(&diff), summary(&decoded));
+        let mut o = if a == b {
+            Outcome::new("ok")
+        } else {
+            let what = a
+                .iter()
+                .zip(b.iter())
+                .find(|(x, y)| x != y)
+                .map(|(x, y)| format!("first difference: {:?} vs {:?}", x, y))
+                .unwrap_or_else(|| format!("{} files vs {} files", a.len(), b.len()));
+            let mut what: String = what.chars().take(600).collect();
+            what.push_str(&format!(" text={:?}", text.chars().take(400).collect::<String>()));
+            Outcome::new("mismatch").violation("diff-roundtrip-mismatch", what)
+        };
+        o.nontrivial = diff.files().count() > 0;
+        (finish(o), hunks)
+    })
+}
+
+fn rt_case(h: &Hunk<Modification>) -> String {
+    format!(
+        "rt {} {}-{} {}-{} {}",
+        hex(h.header.as_bytes()),
+        h.old.start,
+        h.old.end,
+        h.new.start,
+        h.new.end,
+        show_lines(&h.lines)
+    )
+}
+
+fn run_case_full(input: &str) -> (Outcome, Vec<String>) {
+    let toks: Vec<&str> = input.split(' ').collect();
+    let bad = || Outcome::new("bad-case").trivial();
+    let o = match toks.as_slice() {
+        ["hdr", t] => {
+            let Some(bytes) = unhex(t) else { return (bad(), vec![]) };
+            match catch(|| HunkHeader::from_bytes(&bytes).map(|h| (h.to_unified_string(), h))) {
+                Err(msg) => Outcome::new("panic").tag("hdr-panic").violation("decode-panic", msg),
+                Ok(Err(_)) => Outcome::new("err").tag("hdr-err"),
+                Ok(Ok((re, h))) => Outcome::new(format!(
+                    "ok:{},{},{},{},{},{}",
+                    h.old_line_no,
+                    h.old_size,
+                    h.new_line_no,
+                    h.new_size,
+                    hex(&h.text),
+                    re.map(|s| hex(s.as_bytes())).unwrap_or_else(|_| "encode-err".into())
+                ))
+                .tag("hdr-ok"),
+            }
+        }
+        ["mod", t] => {
+            let Some(bytes) = unhex(t) else { return (bad(), vec![]) };
+            match catch(|| Modification::from_bytes(&bytes).map(|m| (m.to_unified_string(), m))) {
+                Err(msg) => Outcome::new("panic").tag("mod-panic").violation("decode-panic", msg),
+                Ok(Err(_)) => Outcome::new("err").tag("mod-err"),
+                Ok(Ok((re, m))) => {
+                    let (k, l) = match &m {
+                        Modification::Addition(a) => ('a', a.line.as_bytes()),
+                        Modification::Deletion(d) => ('d', d.line.as_bytes()),
+                        Modification::Context { line, .. } => ('c', line.as_bytes()),
+                    };
+                    Outcome::new(format!(
+                        "ok:{k}{},{}",
+                        hex(l),
+                        re.map(|s| hex(s.as_bytes())).unwrap_or_else(|_| "encode-err".into())
+                    ))
+                    .tag("mod-ok")
+                }
+            }
+        }
+        ["hunk", t] => {
+            let Some(bytes) = unhex(t) else { return (bad(), vec![]) };
+            match catch(|| Hunk::<Modification>::from_bytes(&bytes).map(|h| (h.to_unified_string(), h))) {
+                Err(msg) => Outcome::new("panic").tag("hunk-panic").violation("decode-panic", msg),
+                Ok(Err(_)) => Outcome::new("err").tag("hunk-err"),
+                Ok(Ok((re, h))) => Outcome::new(format!(
+                    "ok:{},{}",
+                    show_hunk(&h),
+                    re.map(|s| hex(s.as_bytes())).unwrap_or_else(|_| "encode-err".into())
+                ))
+                .tag("hunk-ok"),
+            }
+        }
+        ["rt", header, old, new, lines] => {
+            let (Some(header), Some(old), Some(new), Some(lines)) =
+                (unhex(header), parse_range(old), parse_range(new), parse_lines(lines))
+            else {
+                return (bad(), vec![]);
+            };
+            // The text form is a `String`: values that are not UTF-8 are outside the model.
+            if std::str::from_utf8(&header).is_err()
+                || lines.iter().any(|l| {
+                    std::str::from_utf8(match l {
+                        Modification::Addition(a) => a.line.as_bytes(),
+                        Modification::Deletion(d) => d.line.as_bytes(),
+                        Modification::Context { line, .. } => line.as_bytes(),
+                    })
+                    .is_err()
+                })
+            {
+                return (bad(), vec![]);
+            }
+            let h = Hunk { header: Line::from(header), lines, old, new };
+            match catch(|| h.to_unified_string()) {
+                Err(msg) => Outcome::new("panic").tag("rt-encode-panic").violation("encode-panic", msg),
+                Ok(Err(_)) => Outcome::new("encode-err").tag("rt-encode-err"),
+                Ok(Ok(text)) => match catch(|| Hunk::<Modification>::parse(&text)) {
+                    Err(msg) => Outcome::new(format!("{} panic", hex(text.as_bytes())))
+                        .tag("rt-decode-panic")
+                        .violation("decode-panic", msg),
+                    Ok(Err(e)) => {
+                        // Is the value a hunk as git produces them (the property's domain)? Then it must decode.
+                        let o = Outcome::new(format!("{} err", hex(text.as_bytes()))).tag("rt-decode-err");
+                        if well_formed(&h) {
+                            o.violation("hunk-roundtrip", format!("well-formed hunk does not decode: {e}; text={text:?}"))
+                        } else {
+                            o
+                        }
+                    }
+                    Ok(Ok(d)) => {
+                        let mut o = Outcome::new(format!("{} ok:{}", hex(text.as_bytes()), show_hunk(&d))).tag("rt-ok");
+                        if well_formed(&h) {
+                            o = o.tag("rt-well-formed");
+                            if d.lines != h.lines {
+                                o = o.violation(
+                                    "hunk-roundtrip",
+                                    format!("lines differ after encode/decode: {:?} vs {:?}", h.lines, d.lines)
+                                        .chars()
+                                        .take(700)
+                                        .collect::<String>(),
+                                );
+                            }
+                            if trim_end(d.header.as_bytes()) != trim_end(h.header.as_bytes()) {
+                                o = o.violation(
+                                    "hunk-roundtrip",
+                                    format!("headers differ: {:?} vs {:?}", h.header, d.header),
+                                );
+                            }
+                        } else {
+                            o.nontrivial = false;
+                        }
+                        o
+                    }
+                },
+            }
+        }
+        ["diff", old, new] => {
+            let (Some(old), Some(new)) = (parse_tree(old), parse_tree(new)) else { return (bad(), vec![]) };
+            let (o, hunks) = run_diff(&old, &new);
+            let derived = hunks.iter().take(4).map(rt_case).collect();
+            return (o, derived);
+        }
+        _ => bad(),
+    };
+    (o, vec![])
+}
+
+fn run_case(input: &str) -> Outcome {
+    run_case_full(input).0
+}
+
+/// A hunk as git produces them: header `@@ -a[,b] +c[,d] @@[ text]\n`, every line newline-terminated without
+/// interior newline, counts and line numbers consistent with the header.
+fn well_formed(h: &Hunk<Modification>) -> bool {
+    let Ok(hh) = HunkHeader::from_bytes(h.header.as_bytes()) else { return false };
+    if !h.header.as_bytes().ends_with(b"\n") || h.header.as_bytes().iter().filter(|b| **b == b'\n').count() != 1 {
+        return false;
+    }
+    // canonical number formatting (what git writes)
+    let mut canon = HunkHeader { text: vec![], ..hh.clone() }.to_unified_string().unwrap_or_default();
+    canon.pop();
+    if !h.header.as_bytes().starts_with(canon.as_bytes()) {
+        return false;
+    }
+    let (mut o, mut n) = (0u32, 0u32);
+    for l in &h.lines {
+        let (line, ok) = match l {
+            Modification::Addition(a) => {
+                let ok = a.line_no == hh.new_line_no + n;
+                n += 1;
+                (a.line.as_bytes(), ok)
+            }
+            Modification::Deletion(d) => {
+                let ok = d.line_no == hh.old_line_no + o;
+                o += 1;
+                (d.line.as_bytes(), ok)
+            }
+            Modification::Context { line, line_no_old, line_no_new } => {
+                let ok = *line_no_old == hh.old_line_no + o && *line_no_new == hh.new_line_no + n;
+                o += 1;
+                n += 1;
+                (line.as_bytes(), ok)
+            }
+        };
+        if !ok || !line.ends_with(b"\n") || line.iter().filter(|b| **b == b'\n').count() != 1 {
+            return false;
+        }
+    }
+    o == hh.old_size && n == hh.new_size
+}
+
+// ---------------------------------------------------------------------------------------------
+// generators
+
+const WORDS: &[&str] = &[
+    "fn main() {", "}", "let x = 1;", "", "  indented", "\tTab", "trailing  ", "trailing\t", "x \u{3000}", "\u{a0}", " ",
+    "+plus", "-minus", "@@ -1 +1 @@", "diff --git a/x b/x", "--- a/x", "+++ b/x", "\\ No newline at end of file", "é界🍍",
+    "cr\r", "a", "b", "c", "d", "e", "f", "g", "h", "same", "keep", "# comment", "    ", "index 0000000..1111111",
+];
+
+fn gen_line(rng: &mut Rng) -> String {
+    if rng.chance(1, 6) {
+        let n = rng.below(12);
+        (0..n).map(|_| *rng.pick(&['a', ' ', '\t', 'z', '+', '-', '@', '界', '\r', '0'])).collect()
+    } else {
+        let w: &str = *rng.pick(WORDS);
+        w.to_string()
+    }
+}
+
+fn gen_file(rng: &mut Rng) -> Vec<String> {
+    let n = rng.range(1, 14);
+    (0..n).map(|_| gen_line(rng)).collect()
+}
+
+fn mutate_file(rng: &mut Rng, f: &[String]) -> Vec<String> {
+    let mut f = f.to_vec();
+    for _ in 0..rng.range(1, 3) {
+        match rng.below(4) {
+            0 if !f.is_empty() => {
+                let i = rng.below(f.len() as u64) as usize;
+                f[i] = gen_line(rng);
+            }
+            1 if f.len() > 1 => {
+                let i = rng.below(f.len() as u64) as usize;
+                f.remove(i);
+            }
+            2 if !f.is_empty() => {
+                // change only the trailing whitespace of a line
+                let i = rng.below(f.len() as u64) as usize;
+                let t: &str = *rng.pick(&[" ", "\t", "  ", "\u{3000}", "\r"]);
+                if f[i].ends_with(t) {
+                    let n = f[i].len() - t.len();
+                    f[i].truncate(n);
+                } else {
+                    f[i].push_str(t);
+                }
+            }
+            _ => {
+                let i = rng.below(f.len() as u64 + 1) as usize;
+                f.insert(i, gen_line(rng));
+            }
+        }
+    }
+    if f.is_empty() {
+        f.push(gen_line(rng));
+    }
+    f
+}
+
+fn content(lines: &[String]) -> Vec<u8> {
+    let mut s = lines.join("\n");
+    s.push('\n');
+    s.into_bytes()
+}
+
+const NAMES: &[&str] = &["a.txt", "b.rs", "c", "dir/d.txt", "dir/sub/e.md", "README", "z.txt", "src/lib.rs"];
+
+fn tree_token(t: &[(String, bool, Vec<u8>)]) -> String {
+    if t.is_empty() {
+        "-".into()
+    } else {
+        t.iter().map(|(n, x, c)| format!("{n}:{}:{}", if *x { "x" } else { "f" }, hex(c))).collect::<Vec<_>>().join(",")
+    }
+}
+
+fn gen_diff(rng: &mut Rng) -> String {
+    let mut names: Vec<&str> = NAMES.to_vec();
+    let mut old: TreeSpec = vec![];
+    let mut new: TreeSpec = vec![];
+    let n = rng.range(1, 4);
+    for _ in 0..n {
+        if names.is_empty() {
+            break;
+        }
+        let name = names.remove(rng.below(names.len() as u64) as usize).to_string();
+        let f = gen_file(rng);
+        let exec = rng.chance(1, 8);
+        match rng.below(10) {
+            0 | 1 => new.push((name, exec, content(&f))),       // added
+            2 | 3 => old.push((name, exec, content(&f))),       // deleted
+            4 => {
+                // unchanged
+                old.push((name.clone(), exec, content(&f)));
+                new.push((name, exec, content(&f)));
+            }
+            5 if !names.is_empty() => {
+                // renamed, sometimes with changes
+                let to = names.remove(rng.below(names.len() as u64) as usize).to_string();
+                let g = if rng.chance(1, 3) { mutate_file(rng, &f) } else { f.clone() };
+                old.push((name, exec, content(&f)));
+                new.push((to, exec, content(&g)));
+            }
+            6 => {
+                // mode change, sometimes with content change
+                let g = if rng.bool() { mutate_file(rng, &f) } else { f.clone() };
+                old.push((name.clone(), exec, content(&f)));
+                new.push((name, !exec, content(&g)));
+            }
+            _ => {
+                // modified; long files give several hunks
+                let mut f = f;
+                if rng.chance(1, 3) {
+                    for i in 0..rng.range(10, 30) {
+                        f.push(format!("line {i}"));
+                    }
+                }
+                let mut g = mutate_file(rng, &f);
+                if rng.chance(1, 2) {
+                    g = mutate_file(rng, &g);
+                }
+                old.push((name.clone(), exec, content(&f)));
+                new.push((name, exec, content(&g)));
+            }
+        }
+    }
+    format!("diff {} {}", tree_token(&old), tree_token(&new))
+}
+
+fn gen_header_text(rng: &mut Rng) -> String {
+    let no = |rng: &mut Rng| match rng.below(8) {
+        0 => 0,
+        1 => 1,
+        2 => 4294967295u64,
+        3 => 4294967296u64,
+        _ => rng.below(500),
+    };
+    let range = |rng: &mut Rng| {
+        let (a, b) = (no(rng), no(rng));
+        match rng.below(6) {
+            0 => format!("{a}"),
+            1 => format!("+{a},{b}"),
+            2 => format!("{a},"),
+            3 => format!("{a},{b},{b}"),
+            _ => format!("{a},{b}"),
+        }
+    };
+    let text: &str = *rng.pick(&["", " fn main() {", " ", "  two", " @@ -1 +1 @@", " +x", " é界", "x", " trailing  "]);
+    let mut s = format!("@@ -{} +{} @@{}\n", range(rng), range(rng), text);
+    match rng.below(12) {
+        0 => s = s.replacen("@@ -", "@@ ", 1),
+        1 => s = s.replacen(" +", " ", 1),
+        2 => s = s.replacen(" @@", " @", 1),
+        3 => {
+            s.pop();
+        }
+        4 => s.push_str("+following line\n"),
+        5 => s = s.replacen(" +", "  +", 1),
+        6 => s = s.replace('1', "x"),
+        _ => {}
+    }
+    s
+}
+
+/// A hunk value; mostly as git would produce it.
+fn gen_hunk_value(rng: &mut Rng) -> String {
+    let (old_no, new_no) = (rng.below(60) as u32, rng.below(60) as u32);
+    let n = rng.below(7);
+    let mut lines = vec![];
+    let (mut o, mut nn) = (0u32, 0u32);
+    for _ in 0..n {
+        let mut l = gen_line(rng).into_bytes();
+        match rng.below(30) {
+            0 => {}                        // no trailing newline (not well-formed)
+            1 => l.extend(b"\n\n"),        // two newlines (not well-formed)
+            2 => {
+                l.extend(b"\nx\n");        // interior newline (not well-formed)
+            }
+            _ => l.push(b'\n'),
+        }
+        let skew = if rng.chance(1, 25) { 1 } else { 0 };
+        match rng.below(3) {
+            0 => {
+                lines.push(Modification::addition(l, new_no + nn + skew));
+                nn += 1;
+            }
+            1 => {
+                lines.push(Modification::deletion(l, old_no + o + skew));
+                o += 1;
+            }
+            _ => {
+                lines.push(Modification::context(l, old_no + o + skew, new_no + nn));
+                o += 1;
+                nn += 1;
+            }
+        }
+    }
+    let (os, ns) = match rng.below(12) {
+        0 => (o + 1, nn),
+        1 => (o, nn + 1),
+        2 if o > 0 => (o - 1, nn),
+        _ => (o, nn),
+    };
+    let text: &str = *rng.pick(&["", "", " fn main() {", " é界", " trailing  ", "  ", " @@"]);
+    let fmt = |a: u32, b: u32| if b == 1 { format!("{a}") } else { format!("{a},{b}") };
+    let mut header = format!("@@ -{} +{} @@{}\n", fmt(old_no, os), fmt(new_no, ns), text);
+    match rng.below(20) {
+        0 => {
+            header.pop();
+        }
+        1 => header = format!("@@ -{old_no},{os} +{new_no},{ns} @@{text}\n"), // non-canonical `,1`
+        _ => {}
+    }
+    let h = Hunk { header: Line::from(header.into_bytes()), lines, old: old_no..old_no + os, new: new_no..new_no + ns };
+    rt_case(&h)
+}
+
+fn damage_text(rng: &mut Rng, mut b: Vec<u8>) -> Vec<u8> {
+    match rng.below(8) {
+        0 | 1 | 2 => b,
+        3 => {
+            let n = rng.below(b.len() as u64 + 1) as usize;
+            b.truncate(n);
+            b
+        }
+        4 => {
+            if !b.is_empty() {
+                let i = rng.below(b.len() as u64) as usize;
+                b[i] = *rng.pick(&[b'\n', b' ', b'+', b'-', b'@', b',', b'0', 0xff, b'x']);
+            }
+            b
+        }
+        5 => {
+            if !b.is_empty() {
+                let i = rng.below(b.len() as u64) as usize;
+                b.remove(i);
+            }
+            b
+        }
+        6 => {
+            let i = rng.below(b.len() as u64 + 1) as usize;
+            let ins: &[u8] = *rng.pick(&[&b"\n"[..], b" ", b"+", b"-x\n", b"\xc3", b"@@"]);
+            for (k, x) in ins.iter().enumerate() {
+                b.insert(i + k, *x);
+            }
+            b
+        }
+        _ => {
+            b.extend(b"+extra\n-more\n");
+            b
+        }
+    }
+}
+
 fn main() {
-    eprintln!("C30: harness not implemented");
-    std::process::exit(3);
+    let mut ctx = Ctx::from_args("C30");
+    let mut derived_seen = 0u64;
+    let is_replay = {
+        let (inputs, is_replay) = ctx.fixed_inputs();
+        for i in inputs {
+            let (o, derived) = run_case_full(&i);
+            ctx.count("corpus-or-replay");
+            ctx.record(&i, o);
+            if !is_replay {
+                for d in derived {
+                    let o = run_case(&d);
+                    ctx.count("derived-from-git-hunk");
+                    ctx.record(&d, o);
+                }
+            }
+        }
+        is_replay
+    };
+    if !is_replay {
+        let mut rng = ctx.rng();
+        for _ in 0..ctx.size(1_500, 40_000) {
+            let input = gen_diff(&mut rng);
+            let (o, derived) = run_case_full(&input);
+            ctx.record(&input, o);
+            for d in derived {
+                let o = run_case(&d);
+                derived_seen += 1;
+                ctx.count("derived-from-git-hunk");
+                ctx.record(&d, o);
+            }
+        }
+        for _ in 0..ctx.size(6_000, 150_000) {
+            let input = match rng.below(10) {
+                0..=2 => {
+                    let t = gen_header_text(&mut rng).into_bytes();
+                    format!("hdr {}", hex(&damage_text(&mut rng, t)))
+                }
+                3 | 4 => {
+                    let ind: &str = *rng.pick(&["+", "-", " ", "+", "-", " ", "x", "", "\\"]);
+                    let t = format!("{ind}{}\n", gen_line(&mut rng)).into_bytes();
+                    format!("mod {}", hex(&damage_text(&mut rng, t)))
+                }
+                5 | 6 => gen_hunk_value(&mut rng),
+                _ => {
+                    // text of a hunk value, damaged, through the in-file decoder
+                    let v = gen_hunk_value(&mut rng);
+                    let o = run_case(&v);
+                    let text = o.output.split(' ').next().unwrap_or("-").to_string();
+                    let bytes = unhex(&text).unwrap_or_default();
+                    format!("hunk {}", hex(&damage_text(&mut rng, bytes)))
+                }
+            };
+            let o = run_case(&input);
+            ctx.record(&input, o);
+        }
+    }
+    ctx.note("hunks produced by git and re-checked at hunk level", derived_seen);
+    ctx.finish(
+        "diff: git (libgit2 diff_tree_to_tree + rename/copy detection) between two random trees of 1-4 newline-terminated \
+         UTF-8 text files (added, deleted, unchanged, modified with 1-2 edit rounds, long files with several hunks, \
+         renamed with or without changes, mode changes; lines with trailing spaces/tabs/U+3000/CR, lines that look like \
+         diff syntax), real encode, real Diff::decode, compare files/kinds/hunks; every git hunk is re-run as an `rt` case \
+         (real Hunk::encode + in-file Hunk::decode vs the model). hdr/mod/hunk: well-formed and damaged texts (truncation, \
+         byte overwrite/removal/insertion incl. invalid UTF-8, extra lines; numbers 0, 1, 2^32-1, 2^32, `+` signs, missing \
+         parts). rt: random hunk values, mostly well-formed, some with inconsistent counts/numbers or lines without/with \
+         extra newlines. Non-trivial = a diff with at least one changed file / a well-formed hunk / any decode; distinct \
+         by input text",
+        false,
+    );
 }
